@@ -52,54 +52,87 @@ def check_delegation(ctx, rule, only_array=False, only=None):
             ctx.bad(rule, FLUID + f"Fluid.{mname}", f"{ci.module.relpath}:{ci.node.lineno}", "the facade method exists", signature="method missing")
             continue
         ctx.touch(m.qualname)
-        it = interp(ctx, opaque=opaque)
+        for array_mode in ((False, True) if mname in ARRAY_METHODS else (False,)):
+            mode = " [array argument]" if array_mode else ""
+            it = interp(ctx, array_mode=array_mode, opaque=opaque)
 
-        def run(it_, m=m):
-            sv = Inst(ci, {}, "self")
-            bound = it_.symbolic_args(m)
-            return it_.enter(m, bound, sv, None, ci)
+            def run(it_, m=m):
+                sv = Inst(ci, {}, "self")
+                bound = it_.symbolic_args(m)
+                return it_.enter(m, bound, sv, None, ci)
 
-        paths = [p for p in it.explore(run) if p.outcome == "return"]
-        if len(paths) != 1:
-            raise AnalysisError(f"{m.qualname}: expected one path")
-        p = paths[0]
-        calls = [e for e in p.events if e.kind == "int_call" and e.data["callee"] in opaque]
-        n += 1
-        if len(calls) != 1 or calls[0].data["callee"] != callee:
-            ctx.bad(
-                rule, m.qualname + ":correlation", m.where(), f"the method evaluates exactly the stand-alone correlation {callee.split('.')[-1]}",
-                signature="callee " + ",".join(sorted(e.data["callee"].split(".")[-1] for e in calls)), found=[e.data["callee"] for e in calls],
+            paths = [p for p in it.explore(run) if p.outcome == "return"]
+            if len(paths) > 1:
+                # partitions that return the same value (a logging-level test, a validation that did not fire) are one
+                uniq = {}
+                for p_ in paths:
+                    uniq.setdefault(nf.key(it.to_nf(p_.value)) if p_.value is not None else None, p_)
+                paths = list(uniq.values())
+            if len(paths) != 1:
+                if not paths:
+                    raise AnalysisError(f"{m.qualname}: no returning path")
+                ctx.bad(
+                    rule, m.qualname + ":one evaluation path" + mode, m.where(),
+                    "the facade method evaluates its correlation on a single path: it takes no decisions of its own on the arguments (a fast path, a whole-array test, a fallback)",
+                    signature="paths " + str(len(paths)), decisions=sorted({("" if c else "not ") + d[:80] for p_ in paths for _k, c, d in p_.decisions})[:8],
+                )
+                continue
+            p = paths[0]
+            calls = [e for e in p.events if e.kind == "int_call" and e.data["callee"] in opaque]
+            n += 0 if array_mode else 1
+            if len(calls) != 1 or calls[0].data["callee"] != callee:
+                ctx.bad(
+                    rule, m.qualname + ":correlation" + mode, m.where(), f"the method evaluates exactly the stand-alone correlation {callee.split('.')[-1]}",
+                    signature="callee " + ",".join(sorted(e.data["callee"].split(".")[-1] for e in calls)), found=[e.data["callee"] for e in calls],
+                )
+                continue
+            a = calls[0].data["args"]
+            fi = P.func(callee)
+            probs = []
+            defaults = fi.defaults()
+            for par in fi.params:
+                got = it.to_nf(a[par])
+                field = ALIAS.get(par, par)
+                if field in FIELDS:
+                    want = nf.sym("self." + field)
+                elif par == "pressure" or par in m.params:
+                    want = nf.sym(par)
+                elif par in defaults:
+                    continue
+                else:
+                    probs.append(f"{par}: no rule for this parameter")
+                    continue
+                if got != want:
+                    probs.append(f"{par} <- {nf.show(got, 60)} (expected {nf.show(want, 60)})")
+            ctx.check(
+                not probs, rule, m.qualname + ":arguments" + mode, f"{m.file}:{calls[0].line}",
+                f"{callee.split('.')[-1]} receives self.<field> in every same-named slot and the method's own pressure / pseudocritical arguments",
+                signature="; ".join(probs)[:200], problems=probs,
             )
-            continue
-        a = calls[0].data["args"]
-        fi = P.func(callee)
-        probs = []
-        defaults = fi.defaults()
-        for par in fi.params:
-            got = it.to_nf(a[par])
-            field = ALIAS.get(par, par)
-            if field in FIELDS:
-                want = nf.sym("self." + field)
-            elif par == "pressure" or par in m.params:
-                want = nf.sym(par)
-            elif par in defaults:
-                continue
-            else:
-                probs.append(f"{par}: no rule for this parameter")
-                continue
-            if got != want:
-                probs.append(f"{par} <- {nf.show(got, 60)} (expected {nf.show(want, 60)})")
-        ctx.check(
-            not probs, rule, m.qualname + ":arguments", f"{m.file}:{calls[0].line}",
-            f"{callee.split('.')[-1]} receives self.<field> in every same-named slot and the method's own pressure / pseudocritical arguments",
-            signature="; ".join(probs)[:200], problems=probs,
-        )
-        rv = it.to_nf(p.value)
-        at = it.single_atom(rv)
-        ctx.check(
-            at is not None and at[0] == "fn" and at[1] == callee, rule, m.qualname + ":return", m.where(),
-            "the method returns the correlation's value unchanged (per element for arrays)", signature="return", value=nf.show(rv, 200),
-        )
+            if mname in ARRAY_METHODS and "pressure" in a:
+                # the method accepts an array of pressures: either it applies the correlation per element (a loop or
+                # comprehension over `pressure`, np.vectorize) or the correlation itself must be safe for whole arrays
+                k_call = p.events.index(calls[0])
+                per_element = any(
+                    (e.kind == "vectorized_call")
+                    or (e.kind == "for_iter" and isinstance(e.data.get("iter"), Num) and e.data["iter"].nf == nf.sym("pressure"))
+                    for e in p.events[:k_call]
+                )
+                if not per_element:
+                    from .common import array_safe
+
+                    ok_arr, why = array_safe(ctx, callee, "pressure")
+                    ctx.check(
+                        ok_arr, rule, m.qualname + ":whole array handed to the correlation" + mode, f"{m.file}:{calls[0].line}",
+                        f"{callee.split('.')[-1]} receives the whole pressure array: none of its decisions may depend on pressure outside an explicit scalar branch (a scalar test of an array is an error or, under np.all / np.any, one decision for all elements)",
+                        signature="array decisions " + "; ".join(why)[:160], decisions=why[:6],
+                    )
+            rv = it.to_nf(p.value)
+            at = it.single_atom(rv)
+            ctx.check(
+                at is not None and at[0] == "fn" and at[1] == callee, rule, m.qualname + ":return" + mode, m.where(),
+                "the method returns the correlation's value unchanged (per element for arrays)", signature="return", value=nf.show(rv, 200),
+            )
     ctx.floor(rule, n, len(only) if only is not None else (6 if only_array else 7), "Fluid facade methods")
 
 
